@@ -5,6 +5,7 @@
 From Coq Require Import List ZArith NArith Bool.
 From C33 Require Import Lib.Bytes Lib.OMap Lib.Harness.
 From C33 Require Export C10.Model C10.Spec.
+From C33 Require Export C10.Join C10.JoinSpec C10.JoinCheck.
 Import ListNotations.
 
 Definition R (pk to note : bytes) (a : Z) : rowdata := mkRow pk to note a.
@@ -23,7 +24,11 @@ Inductive xval := XR (primary : bytes) (r : N) | XP (p : bytes).
 Inductive xq := XQ (q : query) (e : N) (rs : list (bytes * N)).
 Inductive xobs := XErr (e : N) | XSave (e : N) (dump : list (bytes * xval)) (qs : list xq).
 
-Inductive case := CHist (tab : list rowdata) (steps : list (xop * xobs)).
+(** [CHist]: a history on one plain table; [CJoin]: a history on a JoinTable
+    (left table, right table, join.Save) — see JoinCheck.v *)
+Inductive case :=
+| CHist (tab : list rowdata) (steps : list (xop * xobs))
+| CJoin (j : jcase).
 
 Definition row_at (tab : list rowdata) (i : N) : rowdata :=
   nth (N.to_nat i) tab (mkRow [] [] [] 0).
@@ -232,10 +237,15 @@ Definition check_step (a : acc) (x : op * iobs) : acc :=
     else mkAcc st1 (a_m0 a) m1 (a_win a ++ [o]) seen magree ok kf
   else mkAcc st1 (a_m0 a) (a_m a) (a_win a) seen magree false (a_kf a).
 
-Definition check_case (c : case) : verdict :=
-  let '(CHist tab xsteps) := c in
+Definition check_hist (tab : list rowdata) (xsteps : list (xop * xobs)) : verdict :=
   let steps := map (fun x => (op_of tab (fst x), obs_of tab (snd x))) xsteps in
   let a := fold_left check_step steps (mkAcc init [] [] [] [] true true 0%N) in
   (* on the guarded stream every divergence is a violation *)
   let kf := if safe_words (map fst steps) then 0%N else a_kf a in
   (a_magree a, a_sholds a, kf).
+
+Definition check_case (c : case) : verdict :=
+  match c with
+  | CHist tab xsteps => check_hist tab xsteps
+  | CJoin j => check_jcase j
+  end.
